@@ -66,10 +66,11 @@ const (
 	namSeveralNo        // ids [O, O2], dns [D, other]
 	namNearMiss         // ids [E+"x", E minus last byte, E in other case]
 	namBadUTF8          // ids [E, not UTF-8]: utils.ReceptorNames fails on it
+	namCaseFold         // ids: every spelling of E that differs from E ONLY by letter case / Unicode simple case folding
 	nNames
 )
 
-var namesName = []string{"expected", "other", "several", "none", "dns-only", "dns-other", "several-without", "near-miss", "bad-utf8"}
+var namesName = []string{"expected", "other", "several", "none", "dns-only", "dns-other", "several-without", "near-miss", "bad-utf8", "case-fold"}
 
 type authority struct {
 	cert *x509.Certificate
@@ -170,6 +171,55 @@ func swapCase(s string) string {
 	return string(b)
 }
 
+// Every spelling that Unicode simple case folding identifies with s and that is NOT s itself:
+// ASCII lower / upper / title / swapped case, and k <-> KELVIN SIGN U+212A, s <-> LONG S U+017F,
+// in both directions (s may itself contain the folded code points).  A node ID is an exact
+// string: none of these names the node s.
+func foldVariants(s string) []string {
+	plain := strings.NewReplacer("\u212a", "k", "\u017f", "s").Replace(s)
+	lower, upper := strings.ToLower(plain), strings.ToUpper(plain)
+	title := lower
+	if len(lower) > 0 {
+		title = strings.ToUpper(lower[:1]) + lower[1:]
+	}
+	kelvin := strings.NewReplacer("k", "\u212a", "K", "\u212a").Replace(plain)
+	longs := strings.NewReplacer("s", "\u017f", "S", "\u017f").Replace(plain)
+	firstOnly := func(t, from, to string) string { return strings.Replace(t, from, to, 1) }
+	cands := []string{lower, upper, title, swapCase(plain), plain, kelvin, longs,
+		firstOnly(lower, "k", "\u212a"), firstOnly(lower, "s", "\u017f"), firstOnly(upper, "K", "\u212a"), swapCase(s)}
+	var out []string
+	seen := map[string]bool{s: true}
+	for _, c := range cands {
+		if !seen[c] && strings.EqualFold(c, s) {
+			seen[c] = true
+			out = append(out, c)
+		}
+	}
+	if len(out) == 0 { // s has no cased letter: nothing differs only by case
+		out = []string{s + "x"}
+	}
+	return out
+}
+
+// a node ID with cased letters, k and s, in one of the spellings of foldVariants
+func genFoldID(r *Rng) string {
+	base := []string{"kiosk-", "controller-", "desk-", "Kiosk-", "worker.site-"}[r.Intn(5)] + genASCII(r, 1+r.Intn(3))
+	switch r.Intn(6) {
+	case 0:
+		return strings.ToUpper(base)
+	case 1:
+		return strings.ToUpper(base[:1]) + base[1:]
+	case 2:
+		return strings.Replace(strings.ToLower(base), "k", "\u212a", 1) // the expected ID itself has the KELVIN SIGN
+	case 3:
+		return strings.Replace(strings.ToLower(base), "s", "\u017f", 1) // ... the LONG S
+	case 4:
+		return swapCase(base)
+	default:
+		return strings.ToLower(base)
+	}
+}
+
 func (p *pki) idsAndDNS(cp certParams) (ids, dns []string, hasSAN bool) {
 	switch cp.Names {
 	case namExpected:
@@ -194,8 +244,10 @@ func (p *pki) idsAndDNS(cp certParams) (ids, dns []string, hasSAN bool) {
 			ids = append(ids, cp.E[:len(cp.E)-sz])
 		}
 		return ids, []string{cp.D + "x", "x" + cp.D}, true
-	default: // namBadUTF8
+	case namBadUTF8:
 		return []string{cp.E, "bad\xff"}, []string{cp.D}, true
+	default: // namCaseFold
+		return foldVariants(cp.E), []string{cp.D}, true
 	}
 }
 
